@@ -42,6 +42,9 @@ func c16Universe(variant int) *built {
 		g.Edges = []gedge{{0, 1, formProperties, spShort}} // acyclic
 	case 3:
 		g.Edges = []gedge{{0, 0, formItems, spShort}, {0, 1, formAllOf, spShort}, {1, 1, formProperties, spShort}}
+	case 5: // acyclic, and the entry schema declares an absolute id on the root's scheme and host
+		g.Edges = []gedge{{0, 1, formProperties, spShort}}
+		g.IDs = []string{"file:///r/ids/n.json", ""}
 	case 4: // everything inside the root document
 		g.Place = []int{0, 0}
 		g.Edges = []gedge{{0, 1, formProperties, spShort}, {1, 0, formItems, spShort}, {1, 1, formAllOf, spShort}}
@@ -68,6 +71,8 @@ func c16Alphabet() []c16Call {
 		{Name: "ResolveRefWithBase(no root,no base)", Variant: 1, Fn: "ResolveRefWithBase", Elem: "#/definitions/N0", Root: "nil", NoBase: true},
 		{Name: "ExpandSpec(v2, options with empty base)", Variant: 2, Fn: "ExpandSpec", EmptyBase: true},
 		{Name: "ExpandSchemaWithBasePath(v1,N0, options with empty base)", Variant: 1, Fn: "ExpandSchemaWithBasePath", Elem: "/definitions/N0", EmptyBase: true},
+		{Name: "ExpandSpec(v5 acyclic, schema with an id)", Variant: 5, Fn: "ExpandSpec"},
+		{Name: "ExpandSchemaWithBasePath(v5,N0 with an id)", Variant: 5, Fn: "ExpandSchemaWithBasePath", Elem: "/definitions/N0"},
 		{Name: "MustLoadJSONSchemaDraft04 expanded in place", Variant: 1, Fn: "meta-load-expand", Raw: "draft04"},
 		{Name: "MustLoadSwagger20Schema expanded in place", Variant: 1, Fn: "meta-load-expand", Raw: "swagger"},
 		{Name: "ExpandSchema(ref to draft-04 meta-schema)", Variant: 1, Fn: "meta-expand", Raw: `{"$ref":"http://json-schema.org/draft-04/schema#"}`},
